@@ -324,7 +324,12 @@ def run_solver(case):
         time = 0.0
         d = dt
         mesh = dev.mesh
-        for n in range(L + 1):
+        # stage 1: steps 0..L; stage 2: the run loop starts a new stage (thermalisation -> simulation, or a second solve() on the
+        # same solver): step counter and clock restart at 0 on the same solver object, whose operators hold the last potential
+        plan = [(1, n) for n in range(L + 1)] + [(2, n) for n in range(3)]
+        for stage, n in plan:
+            if stage == 2 and n == 0:
+                time = 0.0
             captured.clear()
             A_in = vals[4]
             rs.clear()
@@ -339,7 +344,7 @@ def run_solver(case):
             d, *vals = out
             A_now = solver.update_applied_vector_potential(time)
             res.transitions += 1
-            res.states.add(f"{case['dev']}/scr={case['screening']}/inc={script[n - 1] if n else 'init'}")
+            res.states.add(f"{case['dev']}/scr={case['screening']}/stage={stage}/inc={script[n - 1] if n else 'init'}")
             if not case["screening"]:
                 want, _ = build_laplacian(mesh, link_exponents=A_now, weights=solver.operators.laplacian_weights)
                 want = want.toarray()
@@ -352,7 +357,8 @@ def run_solver(case):
                             screening=False,
                             magnitude="tiny" if err < 1e-4 else "gross",
                             after_increment=INCS[script[n - 1]] if n else None,
-                            detail={"script": [INCS[i] for i in script], "step": n, "err": err},
+                            **({"after_clock_reset": True} if stage == 2 else {}),
+                            detail={"script": [INCS[i] for i in script], "step": n, "stage": stage, "err": err},
                         )
                         break
             else:
@@ -364,8 +370,8 @@ def run_solver(case):
                     res.residual("solver_entry_scr", err)
                     if err > 1e-13:
                         res.violate("stale-operator-in-use", screening=True, magnitude="tiny" if err < 1e-4 else "gross",
-                                    after_increment=INCS[script[n - 1]] if n else None,
-                                    detail={"script": [INCS[i] for i in script], "step": n, "err": err})
+                                    after_increment=INCS[script[n - 1]] if n else None, **({"after_clock_reset": True} if stage == 2 else {}),
+                                    detail={"script": [INCS[i] for i in script], "step": n, "stage": stage, "err": err})
                 # and after the step the operators in the object match the last iterate used
                 res.count("screening_iterations", len(captured))
             time += d
